@@ -35,6 +35,9 @@ func verifHandlerMode(o *verifOutcome, mode int) error {
 	case 1:
 		return errors.New("handler failed")
 	case 2:
+		if rt.Bool("panicWithError") {
+			panic(errors.New("handler panics with an error value"))
+		}
 		panic("handler panics")
 	}
 	return nil
